@@ -33,7 +33,40 @@ pub fn case(tape: &[u32]) -> CaseOutcome {
     cfg.fault = a.chance(1, 4);
     cfg.scoped_heavy = a.chance(1, 2);
     let sources = pick_sources(&mut a, 2);
-    let program = make_program(&mut t, &cfg);
+    let use_scenario = a.chance(1, 6);
+    let mut program = if use_scenario {
+        // inheritance scenarios (several defining ancestors, links, list elements), immutable only
+        let (prog, mut features) = super::c04::scenario(&mut t, false, 30);
+        features.insert("scenario");
+        let printed = crate::dsl::print_canonical(&prog);
+        Program { gen: crate::gen::Generated { prog, globals: Default::default(), features, fault: None, fault_id: None, fault_pair: None }, printed }
+    } else {
+        make_program(&mut t, &cfg)
+    };
+    // sometimes the caller supplies a variable the file does not declare, named like one of the
+    // file's locals: whatever strict mode makes of that, lazy mode has to agree
+    if a.chance(1, 8) {
+        let mut names: Vec<String> = vec![];
+        for st in program.gen.prog.stanzas() {
+            crate::dsl::walk_stmts(&st.body, 0, &mut |s, _| match s {
+                crate::dsl::Stmt::Let { var: crate::dsl::VarRef::Plain { name, .. }, .. } | crate::dsl::Stmt::Var { var: crate::dsl::VarRef::Plain { name, .. }, .. } | crate::dsl::Stmt::Node { var: crate::dsl::VarRef::Plain { name, .. }, .. } => names.push(name.clone()),
+                crate::dsl::Stmt::For { var, .. } => names.push(var.clone()),
+                _ => {}
+            });
+        }
+        for it in &program.gen.prog.items {
+            if let crate::dsl::Item::Shorthand { var, .. } = it {
+                names.push(var.clone());
+            }
+        }
+        if !names.is_empty() {
+            let n = names[a.choose(names.len())].clone();
+            if !program.gen.globals.contains_key(&n) {
+                program.gen.globals.insert(n, crate::cval::CVal::Str("supplied".into()));
+                program.gen.features.insert("undeclared-variable-supplied");
+            }
+        }
+    }
     let dsl = &program.printed.text;
     let file = match load_valid("C02", dsl) {
         Ok(f) => f,
